@@ -1284,9 +1284,7 @@ impl DcpsDomainParticipant {
                                         data_writer.remove_matched_subscription(
                                             &InstanceHandle::new(subscription_key),
                                         );
-                                        data_writer
-                                            .transport_writer
-                                            .delete_matched_reader(subscription_key.into());
+                                        data_writer.delete_matched_reader(subscription_key.into());
                                         notify_publication_match_lost(
                                             the_writer.clone(),
                                             data_writer,
@@ -1452,9 +1450,7 @@ impl DcpsDomainParticipant {
             .any(|x| subscription_handle.as_ref() == &x.key().value)
         {
             data_writer.remove_matched_subscription(&subscription_handle);
-            data_writer
-                .transport_writer
-                .delete_matched_reader(Guid::from(<[u8; 16]>::from(subscription_handle)));
+            data_writer.delete_matched_reader(Guid::from(<[u8; 16]>::from(subscription_handle)));
 
             if let Some(topic) = self
                 .domain_participant
